@@ -759,7 +759,7 @@ func runAudit(verif string, seed int) map[string]interface{} {
 		}
 	}
 	res := map[string]interface{}{"passed": err == nil, "tests": tests,
-		"what": "go test in /verif/audit: Cookie.String length formula, base64 round trip/alphabet, Split/SplitN/IndexAny/LastIndexByte/IndexRune bounds, exact strings.LastIndex model, part names of valid cookie names are valid (and non-token names serialise to the empty string), http.Header Del/Add/Set model"}
+		"what": "go test in /verif/audit: Cookie.String length formula, base64 round trip/alphabet, Split/SplitN/IndexAny/LastIndexByte/IndexRune bounds, exact strings.LastIndex model, part names of valid cookie names are valid (and non-token names serialise to the empty string), http.Header Del/Add/Set model, two-way strings.SplitN model, lz4 round trip with the writer options in use (random, empty, highly repetitive, multi-block payloads), go-simplejson constructor/lookup facts"}
 	if err != nil {
 		res["output"] = firstLines(text, 20)
 	}
